@@ -48,6 +48,11 @@ func (is Instructions) Assemble() string {
 	}
 	panic("Failed to assemble after 10 passes")
 done:
+	for _, i := range is {
+		if j, ok := i.(*JumpRel); ok && j.Dest.Pos() < j.Pos()+j.Size() {
+			panic("JUMP_FORWARD can't jump backwards")
+		}
+	}
 	out := make([]byte, 0, 3*len(is))
 	for _, i := range is {
 		out = append(out, i.Output()...)
@@ -444,15 +449,17 @@ func (o *JumpRel) Resolve() {
 	currentSize := o.Size()
 	currentPos := o.Pos() + currentSize
 	if o.Dest.Pos() < currentPos {
-		panic("JUMP_FORWARD can't jump backwards")
+		// The label still has its position from the previous pass
+		// and an instruction before this one has grown in this pass.
+		// Positions have changed so there will be another pass;
+		// Assemble checks the direction once they have settled.
+		o.OpArg.Arg = 0
+		return
 	}
+	// If this changes the size of the instruction (the Arg crosses
+	// 0xFFFF) the positions after it change and there will be
+	// another pass with the new size.
 	o.OpArg.Arg = o.Dest.Pos() - currentPos
-	if o.Size() != currentSize {
-		// FIXME There is an awkward moment where jump forwards is
-		// between 0x1000 and 0x1002 where the Arg oscillates
-		// between 2 and 4 bytes
-		panic("FIXME compile: JUMP_FOWARDS size changed")
-	}
 }
 
 // Creates the lnotab from the instruction stream
